@@ -437,14 +437,25 @@ class AsyncSimBackend(AsyncNetworkBackend):
             socket_options=socket_options,
             _owners=_owners_on_stack(),
         )
-        rec = await self._run(op)
+        rec = await self._connected(op)
         return AsyncSimStream(self.net, rec)
+
+    async def _connected(self, op):
+        """A connect that succeeded on the ledger but whose caller was cancelled before it could
+        take the stream: the real backends (anyio, trio) close the socket they were about to
+        hand over - the stream never reaches httpcore."""
+        try:
+            return await self._run(op)
+        except BaseException:
+            if op.state == "done" and op.outcome is not None and op.outcome[0] == "ok":
+                self.net._close(op.outcome[1], "backend: cancelled before the stream was handed over")
+            raise
 
     async def connect_unix_socket(self, path, timeout=None, socket_options=None):
         op = self.net.new_op(
             "connect_unix", None, path=path, timeout=timeout, socket_options=socket_options, _owners=_owners_on_stack()
         )
-        rec = await self._run(op)
+        rec = await self._connected(op)
         return AsyncSimStream(self.net, rec)
 
     async def sleep(self, seconds: float) -> None:
